@@ -58,6 +58,10 @@ def cli_resolver(ctx):
         "derived": "---\nbase: lua52\nglobals:\n  print:\n    removed: true\n  newglobal:\n    any: true\n  getfenv:\n    any: true\n  math.floor:\n    removed: true\n",
         "chain2": "---\nbase: derived\nglobals:\n  print:\n    any: true\n  newglobal:\n    removed: true\n  tostring:\n    removed: true\n",
     }
+    # a file library whose `name:` field happens to equal its `base:` (the name keeps name-dependent lints on; it says nothing
+    # about where the base comes from), over a base that is itself a file; and one named like a built-in over that built-in
+    files["named_like_base"] = "---\nbase: derived\nname: derived\nglobals:\n  extra_named:\n    any: true\n  getfenv:\n    removed: true\n"
+    files["named_like_builtin"] = "---\nbase: lua52\nname: lua52\nglobals:\n  extra_builtin:\n    any: true\n  print:\n    removed: true\n"
     for n in ("lua52", "lua53", "luau"):
         files["copy_" + n] = open(os.path.join(stddir, n + ".yml"), encoding="utf-8").read()
     for name, text in files.items():
@@ -76,7 +80,7 @@ def cli_resolver(ctx):
     with open(os.path.join(d, "probe.lua"), "w") as fh:
         for i, k in enumerate(probes):
             fh.write(f"local _p{i} = {k}\n")
-    for std in ("lua51", "lua52", "lua53", "luau", "copy_lua52", "copy_lua53", "copy_luau", "derived", "chain2"):
+    for std in ("lua51", "lua52", "lua53", "luau", "copy_lua52", "copy_lua53", "copy_luau", "derived", "chain2", "named_like_base", "named_like_builtin"):
         cli.write_config(d, std=std, lints={"unused_variable": "allow", "deprecated": "allow", "shadowing": "allow"}, name=f"cfg_{std}.toml")
         rc, out, err = cli.run_selene(["--config", f"cfg_{std}.toml", "--display-style", "json2", "probe.lua"], d)
         diags, summary, bad = cli.parse_json_lines(out)
